@@ -13,7 +13,7 @@ rm -rf /tmp/lanes; mkdir -p /tmp/lanes
 for k in $(seq 1 $n); do
   mkdir -p /tmp/lanes/$k
   git clone -q /repo /tmp/lanes/$k/repo
-  rsync -a --exclude .git --exclude evidence/replays /verif/ /tmp/lanes/$k/verif/
+  rsync -a --exclude .git --exclude evidence/replays /verif/ /tmp/lanes/$k/verif/ || [ $? -eq 24 ]   # 24: files of a concurrent run vanished
   mine=(); i=0
   for x in "${names[@]}"; do [ $((i % n + 1)) -eq $k ] && mine+=("$x"); i=$((i+1)); done
   ( cd /tmp/lanes/$k/verif && LANE_REPO=/tmp/lanes/$k/repo LANE_VERIF=/tmp/lanes/$k/verif LANE_RESULTS=/tmp/lanes/$k/results.json \
